@@ -220,6 +220,20 @@ func (sc *specCtx) lookupVar(name string) (Value, bool) {
 	if v, ok := sc.bound[name]; ok {
 		return v, true
 	}
+	// a `let` shadows a variable of the function everywhere (also in loop clauses, where a plain name otherwise
+	// means the variable's current value): a clause must never silently follow the code it judges
+	if v, ok := sc.lets[name]; ok {
+		return v, true
+	}
+	if e, ok := sc.letExprs[name]; ok && !sc.letBusy[name] {
+		if sc.letBusy == nil {
+			sc.letBusy = map[string]bool{}
+		}
+		sc.letBusy[name] = true
+		v := sc.x.evalSpec(sc, e)
+		delete(sc.letBusy, name)
+		return v, true
+	}
 	if sc.preferEnv && sc.envOver != nil {
 		if ent, ok := sc.envOver[name]; ok {
 			if ent.isAddr {
